@@ -899,46 +899,49 @@ message Other { string name = 1; }
 	}
 	// --- systematic: recursion and flatten shapes ---------------------------------------------------------------
 	recShapes := map[string]string{
-		"self":                           "message A { A next = 1; }",
-		"self-repeated":                  "message A { repeated A kids = 1; }",
-		"self-map":                       "message A { map<string, A> kids = 1; }",
-		"self-flatten":                   "message A { A next = 1 [(j5.ext.v1.field).message.flatten = true]; string x = 2; }",
-		"self-flatten-object":            "message A { A next = 1 [(j5.ext.v1.field).object.flatten = true]; }",
-		"mutual":                         "message A { B b = 1; }\nmessage B { A a = 1; }",
-		"mutual-flatten":                 "message A { B b = 1 [(j5.ext.v1.field).message.flatten = true]; }\nmessage B { A a = 1 [(j5.ext.v1.field).message.flatten = true]; }",
-		"mutual-flatten-one":             "message A { B b = 1 [(j5.ext.v1.field).message.flatten = true]; }\nmessage B { A a = 1; }",
-		"flatten-collision":              "message A { B b = 1 [(j5.ext.v1.field).message.flatten = true]; string name = 2; }\nmessage B { string name = 1; }",
-		"flatten-twice":                  "message A { B b = 1 [(j5.ext.v1.field).message.flatten = true]; B c = 2 [(j5.ext.v1.field).message.flatten = true]; }\nmessage B { string name = 1; }",
-		"flatten-repeated":               "message A { repeated B b = 1 [(j5.ext.v1.field).message.flatten = true]; }\nmessage B { string name = 1; }",
-		"flatten-scalar":                 "message A { string b = 1 [(j5.ext.v1.field).message.flatten = true]; }",
-		"flatten-wkt":                    "message A { google.protobuf.Timestamp b = 1 [(j5.ext.v1.field).message.flatten = true]; }",
-		"flatten-oneof":                  "message A { W w = 1 [(j5.ext.v1.field).message.flatten = true]; }\nmessage W { oneof type { A a = 1; W w = 2; } }",
-		"wrapper-self":                   "message W { oneof type { W w = 1; } }",
-		"wrapper-scalar-arm":             "message W { option (j5.ext.v1.message).is_oneof_wrapper = true; oneof type { string s = 1; int64 i = 2; } }",
-		"wrapper-no-oneof":               "message W { option (j5.ext.v1.message).is_oneof_wrapper = true; string s = 1; }",
-		"wrapper-two-oneofs":             "message W { option (j5.ext.v1.message).oneof = {}; oneof type { string s = 1; } oneof other { string t = 2; } }",
-		"wrapper-empty":                  "message W { option (j5.ext.v1.message).oneof = {}; }",
-		"exposed-self":                   "message A { oneof type { option (j5.ext.v1.oneof).expose = true; A a = 1; string s = 2; } }",
-		"exposed-two":                    "message A { oneof x { option (j5.ext.v1.oneof).expose = true; string s = 1; } oneof y { option (j5.ext.v1.oneof).expose = true; string t = 2; } }",
-		"nested-same-name":               "message A { message A { string s = 1; } A inner = 1; }",
-		"nested-underscore":              "message A_B { string s = 1; }\nmessage A { message B { string t = 1; } B b = 1; A_B ab = 2; }",
-		"psm-unknown-suffix":             "message Thing { option (j5.ext.v1.psm).entity_name = \"t\"; string s = 1; }",
-		"psm-keys-legacy":                "message ThingKeys { option (j5.ext.v1.psm).entity_name = \"t\"; string id = 1; }\nmessage ThingState { ThingKeys keys = 1; }",
-		"enum-only-zero":                 "enum E { E_UNSPECIFIED = 0; }\nmessage A { E e = 1; }",
-		"enum-alias":                     "enum E { option allow_alias = true; E_UNSPECIFIED = 0; E_A = 1; E_B = 1; }\nmessage A { E e = 1; repeated E es = 2; }",
-		"enum-negative":                  "enum E { E_UNSPECIFIED = 0; E_NEG = -1; }\nmessage A { E e = 1; }",
-		"empty-message":                  "message A { }",
-		"fields-named-like-entity-parts": "message A { repeated string keys = 1; int64 data = 2; bool status = 3; string metadata = 4; bytes event = 5; }\nmessage BState { int64 keys = 1; string data = 2; }\nmessage CEvent { string keys = 1; string event = 2; }\nmessage D { map<string, string> keys = 1; }\nenum E { E_UNSPECIFIED = 0; }\nmessage F { E keys = 1; repeated E status = 2; }",
-		"map-of-wrapper":                 "message W { oneof type { A a = 1; B b = 2; } }\nmessage A { string s = 1; }\nmessage B { int64 n = 1; }\nmessage H { map<string, W> ws = 1; repeated W list = 2; W one = 3; }",
-		"map-of-typed-wrapper":           "message W { option (j5.ext.v1.message).oneof = {}; oneof type { string s = 1; A a = 2; } }\nmessage A { string s = 1; }\nmessage H { map<string, W> ws = 1; repeated W list = 2; optional string x = 3; }",
-		"exposed-oneof-name-clash":       "message A { oneof contact_info { option (j5.ext.v1.oneof).expose = true; string email = 1; string phone = 2; } string contactInfo = 3; }",
-		"exposed-oneof-name-clash-snake": "message A { oneof pick { option (j5.ext.v1.oneof).expose = true; string email = 1; string phone = 2; } string pick = 3; }",
-		"json-name-clash":                "message A { string foo_bar = 1; string fooBar = 2; }",
-		"flatten-chain":                  "message A { B b = 1 [(j5.ext.v1.field).object.flatten = true]; string own = 2; }\nmessage B { C c = 1 [(j5.ext.v1.field).object.flatten = true]; int64 count = 2; }\nmessage C { string name = 1; Leaf leaf = 2; repeated string tags = 3; }\nmessage Leaf { string text = 1; }",
-		"flatten-chain-3":                "message A { B b = 1 [(j5.ext.v1.field).message.flatten = true]; }\nmessage B { C c = 1 [(j5.ext.v1.field).message.flatten = true]; }\nmessage C { D d = 1 [(j5.ext.v1.field).message.flatten = true]; string c_name = 2; }\nmessage D { string d_name = 1; optional int32 d_count = 2; }",
-		"flatten-chain-oneof":            "message A { B b = 1 [(j5.ext.v1.field).object.flatten = true]; }\nmessage B { C c = 1 [(j5.ext.v1.field).object.flatten = true]; }\nmessage C { oneof pick { option (j5.ext.v1.oneof).expose = true; string s = 1; int64 i = 2; } string name = 3; }",
-		"flatten-chain-item":             "message A { repeated B bs = 1; map<string, B> by_name = 2; }\nmessage B { C c = 1 [(j5.ext.v1.field).object.flatten = true]; }\nmessage C { D d = 1 [(j5.ext.v1.field).object.flatten = true]; string c_name = 2; }\nmessage D { string d_name = 1; }",
-		"deep-nesting":                   "message A { message B { message C { message D { string s = 1; } D d = 1; } C c = 1; } B b = 1; }",
+		"self":                            "message A { A next = 1; }",
+		"self-repeated":                   "message A { repeated A kids = 1; }",
+		"self-map":                        "message A { map<string, A> kids = 1; }",
+		"self-flatten":                    "message A { A next = 1 [(j5.ext.v1.field).message.flatten = true]; string x = 2; }",
+		"self-flatten-object":             "message A { A next = 1 [(j5.ext.v1.field).object.flatten = true]; }",
+		"mutual":                          "message A { B b = 1; }\nmessage B { A a = 1; }",
+		"mutual-flatten":                  "message A { B b = 1 [(j5.ext.v1.field).message.flatten = true]; }\nmessage B { A a = 1 [(j5.ext.v1.field).message.flatten = true]; }",
+		"mutual-flatten-after-plain":      "message P { string p = 1; }\nmessage A { P plain = 1; B b = 2 [(j5.ext.v1.field).message.flatten = true]; }\nmessage B { P plain = 1; string s = 2; A a = 3 [(j5.ext.v1.field).message.flatten = true]; }",
+		"mutual-flatten-after-plain-list": "message P { string p = 1; }\nmessage A { repeated P plains = 1; Q q = 2; B b = 3 [(j5.ext.v1.field).object.flatten = true]; }\nmessage Q { P p = 1; }\nmessage B { Q q = 1; A a = 2 [(j5.ext.v1.field).object.flatten = true]; }",
+		"plain-then-flatten-same-type":    "message P { string p = 1; }\nmessage A { P plain = 1; P flat = 2 [(j5.ext.v1.field).object.flatten = true]; }",
+		"mutual-flatten-one":              "message A { B b = 1 [(j5.ext.v1.field).message.flatten = true]; }\nmessage B { A a = 1; }",
+		"flatten-collision":               "message A { B b = 1 [(j5.ext.v1.field).message.flatten = true]; string name = 2; }\nmessage B { string name = 1; }",
+		"flatten-twice":                   "message A { B b = 1 [(j5.ext.v1.field).message.flatten = true]; B c = 2 [(j5.ext.v1.field).message.flatten = true]; }\nmessage B { string name = 1; }",
+		"flatten-repeated":                "message A { repeated B b = 1 [(j5.ext.v1.field).message.flatten = true]; }\nmessage B { string name = 1; }",
+		"flatten-scalar":                  "message A { string b = 1 [(j5.ext.v1.field).message.flatten = true]; }",
+		"flatten-wkt":                     "message A { google.protobuf.Timestamp b = 1 [(j5.ext.v1.field).message.flatten = true]; }",
+		"flatten-oneof":                   "message A { W w = 1 [(j5.ext.v1.field).message.flatten = true]; }\nmessage W { oneof type { A a = 1; W w = 2; } }",
+		"wrapper-self":                    "message W { oneof type { W w = 1; } }",
+		"wrapper-scalar-arm":              "message W { option (j5.ext.v1.message).is_oneof_wrapper = true; oneof type { string s = 1; int64 i = 2; } }",
+		"wrapper-no-oneof":                "message W { option (j5.ext.v1.message).is_oneof_wrapper = true; string s = 1; }",
+		"wrapper-two-oneofs":              "message W { option (j5.ext.v1.message).oneof = {}; oneof type { string s = 1; } oneof other { string t = 2; } }",
+		"wrapper-empty":                   "message W { option (j5.ext.v1.message).oneof = {}; }",
+		"exposed-self":                    "message A { oneof type { option (j5.ext.v1.oneof).expose = true; A a = 1; string s = 2; } }",
+		"exposed-two":                     "message A { oneof x { option (j5.ext.v1.oneof).expose = true; string s = 1; } oneof y { option (j5.ext.v1.oneof).expose = true; string t = 2; } }",
+		"nested-same-name":                "message A { message A { string s = 1; } A inner = 1; }",
+		"nested-underscore":               "message A_B { string s = 1; }\nmessage A { message B { string t = 1; } B b = 1; A_B ab = 2; }",
+		"psm-unknown-suffix":              "message Thing { option (j5.ext.v1.psm).entity_name = \"t\"; string s = 1; }",
+		"psm-keys-legacy":                 "message ThingKeys { option (j5.ext.v1.psm).entity_name = \"t\"; string id = 1; }\nmessage ThingState { ThingKeys keys = 1; }",
+		"enum-only-zero":                  "enum E { E_UNSPECIFIED = 0; }\nmessage A { E e = 1; }",
+		"enum-alias":                      "enum E { option allow_alias = true; E_UNSPECIFIED = 0; E_A = 1; E_B = 1; }\nmessage A { E e = 1; repeated E es = 2; }",
+		"enum-negative":                   "enum E { E_UNSPECIFIED = 0; E_NEG = -1; }\nmessage A { E e = 1; }",
+		"empty-message":                   "message A { }",
+		"fields-named-like-entity-parts":  "message A { repeated string keys = 1; int64 data = 2; bool status = 3; string metadata = 4; bytes event = 5; }\nmessage BState { int64 keys = 1; string data = 2; }\nmessage CEvent { string keys = 1; string event = 2; }\nmessage D { map<string, string> keys = 1; }\nenum E { E_UNSPECIFIED = 0; }\nmessage F { E keys = 1; repeated E status = 2; }",
+		"map-of-wrapper":                  "message W { oneof type { A a = 1; B b = 2; } }\nmessage A { string s = 1; }\nmessage B { int64 n = 1; }\nmessage H { map<string, W> ws = 1; repeated W list = 2; W one = 3; }",
+		"map-of-typed-wrapper":            "message W { option (j5.ext.v1.message).oneof = {}; oneof type { string s = 1; A a = 2; } }\nmessage A { string s = 1; }\nmessage H { map<string, W> ws = 1; repeated W list = 2; optional string x = 3; }",
+		"exposed-oneof-name-clash":        "message A { oneof contact_info { option (j5.ext.v1.oneof).expose = true; string email = 1; string phone = 2; } string contactInfo = 3; }",
+		"exposed-oneof-name-clash-snake":  "message A { oneof pick { option (j5.ext.v1.oneof).expose = true; string email = 1; string phone = 2; } string pick = 3; }",
+		"json-name-clash":                 "message A { string foo_bar = 1; string fooBar = 2; }",
+		"flatten-chain":                   "message A { B b = 1 [(j5.ext.v1.field).object.flatten = true]; string own = 2; }\nmessage B { C c = 1 [(j5.ext.v1.field).object.flatten = true]; int64 count = 2; }\nmessage C { string name = 1; Leaf leaf = 2; repeated string tags = 3; }\nmessage Leaf { string text = 1; }",
+		"flatten-chain-3":                 "message A { B b = 1 [(j5.ext.v1.field).message.flatten = true]; }\nmessage B { C c = 1 [(j5.ext.v1.field).message.flatten = true]; }\nmessage C { D d = 1 [(j5.ext.v1.field).message.flatten = true]; string c_name = 2; }\nmessage D { string d_name = 1; optional int32 d_count = 2; }",
+		"flatten-chain-oneof":             "message A { B b = 1 [(j5.ext.v1.field).object.flatten = true]; }\nmessage B { C c = 1 [(j5.ext.v1.field).object.flatten = true]; }\nmessage C { oneof pick { option (j5.ext.v1.oneof).expose = true; string s = 1; int64 i = 2; } string name = 3; }",
+		"flatten-chain-item":              "message A { repeated B bs = 1; map<string, B> by_name = 2; }\nmessage B { C c = 1 [(j5.ext.v1.field).object.flatten = true]; }\nmessage C { D d = 1 [(j5.ext.v1.field).object.flatten = true]; string c_name = 2; }\nmessage D { string d_name = 1; }",
+		"deep-nesting":                    "message A { message B { message C { message D { string s = 1; } D d = 1; } C c = 1; } B b = 1; }",
 	}
 	for _, name := range rt.SortedKeys(recShapes) {
 		decls := recShapes[name]
